@@ -137,10 +137,18 @@ def raw_line(alg, a, b, rng_=None, idx="S", dl=None, fail=None, stack="none"):
         os_, oe, ns, ne = os_ + ko, oe + ko, ns + kn, ne + kn
     else:
         idxs = "S"
-    return "raw alg=%s idx=%s or=%d:%d nr=%d:%d dl=%s fail=%s stack=%s old=%s new=%s" % (
+    line = "raw alg=%s idx=%s or=%d:%d nr=%d:%d dl=%s fail=%s stack=%s old=%s new=%s" % (
         alg, idxs, os_, oe, ns, ne,
         "-" if dl is None else dl, "-" if fail is None else fail, stack,
         fmt_list(a), fmt_list(b))
+    # which public entry point runs the algorithm: the dispatcher algorithms::diff_deadline (default), the
+    # algorithm's own module function (myers:: / patience:: / lcs::diff_deadline), or the variants without a
+    # deadline parameter (algorithms::diff, <module>::diff) when no deadline is set; chosen from a hash of the case
+    import zlib
+    h = zlib.crc32(line.encode())
+    vias = ["dispatch", "module"] if dl is not None else ["dispatch", "module", "module_nodl", "dispatch_nodl"]
+    via = vias[h % len(vias)]
+    return line if via == "dispatch" else line + " via=" + via
 
 
 def capture_line(alg, a, b, rng_=None, idx="S", dl=None, repair=0):
